@@ -12,6 +12,7 @@ E_TZSTR_ZONE, E_TZSTR_UTC, E_TZSTR_WALL = 10, 11, 12
 E_TZRANGE_ZONE, E_TZRANGE_UTC, E_TZRANGE_WALL = 13, 14, 15
 E_PARSE, E_TRANS = 16, 17
 E_SPEC_UTC, E_SPEC_WALL, E_RENDER, E_GUARDS, E_EVENTS, E_LOCAL_WALL, E_SPEC_FOLD = 20, 21, 22, 23, 24, 25, 26
+E_LOCAL_UTC, E_LOCAL_INIT = 27, 28
 E_ICAL_UTC, E_ICAL_WALL, E_ICAL_CACHED, E_ICAL_PARSE, E_ICAL_OFFSET, E_ICAL_GET, E_ICAL_CONC = 30, 31, 32, 33, 34, 35, 36
 
 ERR = {1: "ValueError", 2: "TypeError", 3: "IndexError", 9: "OutOfFuel"}
@@ -159,15 +160,22 @@ def gen_rule(rng, std_only_p=0.08):
                       12 * 3600 + 45 * 60, -9 * 3600 - 30 * 60, 50400, -43200, 60, -60, 79140, -86340])
     if rng.random() < std_only_p:
         return {"name": name, "off": off, "dst": None}
-    saving = rng.choice([3600, 3600, 3600, 1800, 7200, 1200, 5400, 3600, 3600, -3600, -1800])
+    saving = rng.choice([3600, 3600, 3600, 1800, 7200, 1200, 5400, 3600, 3600, -3600, -1800, 3600, 0])
     if not (-86400 < off + saving < 86400):
         saving = 3600 if off < 0 else -3600
-    if rng.random() < 0.5:      # northern
+    k = rng.random()
+    if k < 0.40:        # northern
         s = gen_date(rng, 2, 5)
         e = gen_date(rng, 8, 11)
-    else:
+    elif k < 0.80:      # southern
         e = gen_date(rng, 2, 5)
         s = gen_date(rng, 8, 11)
+    elif k < 0.90:      # daylight window between the January and the July sample of CPython's time module
+        s = gen_date(rng, 2, 3)
+        e = gen_date(rng, 5, 6)
+    else:               # daylight window containing both samples (standard time only in autumn)
+        s = gen_date(rng, 11, 11)
+        e = gen_date(rng, 8, 9)
     ts = rng.choice(TIMES)
     te = rng.choice(TIMES)
     return {"name": name, "off": off,
@@ -357,6 +365,14 @@ class tz_env(object):
         else:
             os.environ["TZ"] = self.old
         time.tzset()
+
+
+def cpython_time_module_samples(now=None):
+    """the two instants at which CPython's time module samples localtime() (timemodule.c
+    init_timezone): (time() / YEAR) * YEAR and half a YEAR later, YEAR = 365.25 days; as PTime seconds"""
+    year = (365 * 24 + 6) * 3600
+    t = (int(time.time() if now is None else now) // year) * year
+    return EPOCH_ORD * DAY + t, EPOCH_ORD * DAY + t + year // 2
 
 
 def libc_obs(u):
